@@ -305,7 +305,7 @@ def digest(ctx, prop, r, stream, cases, res, out, witness_ids=None):
             r.disagreements.append({'id': cid, 'stream': stream, 'step': f[2], 'model': ' '.join(f[3:])[:400],
                                     'case': case_by_id.get(cid, '')[:2000], 'impl': res_by_id.get(cid, '')[:2000]})
         elif f[1] == 'M' and (f[2] == prop or f[2] in also):
-            model_ok[(cid, f[3])] = (f[5] == '1')
+            model_ok[(cid, f[3], f[6] if len(f) > 6 else '-')] = (f[5] == '1')
         elif f[1] == 'V' and (f[2] == prop or f[2] in also):
             g, i = f[4], f[5]
             clause = f[6] if len(f) > 6 else '-'
@@ -314,7 +314,7 @@ def digest(ctx, prop, r, stream, cases, res, out, witness_ids=None):
             if i == '0':
                 pending.append((cid, f[3], g, clause))
     for cid, step, g, clause in pending:
-        m = None if clause in RELATIONAL else model_ok.get((cid, step))
+        m = model_ok.get((cid, step, clause if clause in RELATIONAL else '-'))
         is_witness = witness_ids is not None and cid in witness_ids
         if g == '1' or m is True or is_witness:
             fail = {'id': cid, 'stream': stream, 'step': int(step), 'in_guard': g == '1', 'model_passes_check': m,
